@@ -29,6 +29,9 @@ func register(prop string, fn ruleFn, explanation, ruleText string, assume ...st
 // current one: every obligation of `from` is a necessary condition of the
 // including property too (stated in its explanation); obligations are
 // re-labelled so that keys stay unique per property.
+// including: properties whose rules are being evaluated as shared clauses (cycle guard).
+var including = map[string]bool{}
+
 func include(w *World, r *Report, from string) {
 	fn, ok := registry[from]
 	if !ok {
@@ -38,6 +41,11 @@ func include(w *World, r *Report, from string) {
 	if note := " Shared clauses: every obligation of " + from + " is also a necessary condition of this property and is evaluated here under the label 'shared " + from + ".…'."; !strings.Contains(r.Explain, note) {
 		r.Explain += note
 	}
+	if including[from] {
+		return // already being evaluated further out: a clause shared both ways is reported once
+	}
+	including[from] = true
+	defer delete(including, from)
 	r2 := newReport(r.Prop)
 	r2.cfg = r.cfg
 	fn(w, r2)
@@ -53,6 +61,38 @@ func include(w *World, r *Report, from string) {
 		r.Funcs[f] = true
 	}
 	r.CallSites += r2.CallSites
+}
+
+// includeIf: as include, restricted to the obligations pred selects (the
+// floors of the source property are not carried over: the selection states its own).
+func includeIf(w *World, r *Report, from, why string, min int, pred func(o *Obligation) bool) {
+	fn, ok := registry[from]
+	if !ok {
+		r.undecided("shared", "rules of "+from, "-", "not registered")
+		return
+	}
+	if note := " Shared clauses from " + from + " (" + why + ") are evaluated here under the label 'shared " + from + ".…'."; !strings.Contains(r.Explain, note) {
+		r.Explain += note
+	}
+	if including[from] {
+		return
+	}
+	including[from] = true
+	defer delete(including, from)
+	r2 := newReport(r.Prop)
+	r2.cfg = r.cfg
+	fn(w, r2)
+	n := 0
+	for _, o := range r2.Obls {
+		if !pred(o) {
+			continue
+		}
+		n++
+		o.Rule = "shared " + o.Rule
+		o.Key = "shared " + o.Key
+		r.Obls = append(r.Obls, o)
+	}
+	r.floor("shared "+from+" ("+why+")", n, min)
 }
 
 func configsFor(tier string) []Config {
@@ -172,6 +212,8 @@ func main() {
 						rep.undecided("internal", "analyser panic under "+w.Cfg.String(), "-", fmt.Sprint(e))
 					}
 				}()
+				including[p] = true
+				defer delete(including, p)
 				registry[p](w, rep)
 			}()
 			evals += len(rep.Obls) - before
